@@ -123,9 +123,15 @@ def main():
     ap.add_argument("--seed", type=int, default=1)
     ap.add_argument("--out", default=None)
     ap.add_argument("--also", default="", help="comma separated further checks to run on each mutant")
+    ap.add_argument("--files", action="store_true", help="mutate anywhere in the files the property lists (not only in the anchored line ranges)")
     ap.add_argument("--cross", action="store_true", help="run every other claimed check on the mutants the property's own check leaves silent")
     a = ap.parse_args()
     rng = ranges_of(a.pid)
+    if a.files:
+        for line in open(os.path.join(VERIF, "properties.jsonl")):
+            d = json.loads(line)
+            if d["id"] == a.pid:
+                rng = {f: [(1, 10 ** 6)] for f in d["anchors"].get("files", []) if f.endswith(".py") and "/tests/" not in f}
     cand = []
     for path, rs in rng.items():
         src = open(os.path.join("/repo", path)).read()
